@@ -52,7 +52,7 @@ CLAIMED = {
              "1e-6 absolute (+1e-9 relative on interaction strengths). Outside: noise, sampling_rate<1, modulation, t=T, overlapping non-zero pulses "
              "of two channels on one atom/basis, symbolic geometry or phases. Known finding F17 (phases of two Global channels on one basis add) is "
              "reported as KNOWN-FINDING; F18 (XY mask interaction off by 1 ns) and F25 (leakage state leaking into later emulators) were repaired in /repo."),
- "C06": dict(text="Bounded symbolic model checking of sampling: 9 programs (global/local/multi-target channels, retargets, DMM with "
+ "C06": dict(text="Bounded symbolic model checking of sampling: 17 programs (global/local/multi-target channels, retargets, DMM with "
              "detuning map, XY + SLM mask, EOM blocks incl. modify and enable/disable on an empty channel) with concrete timelines and symbolic "
              "amplitudes, detunings and detuning-map weights; every nanosecond of every channel, of the per-atom view (all_local False/True) and of "
              "extend_duration is compared with a reference renderer written from the slot list.", ref="§6 C06",
@@ -82,13 +82,13 @@ CLAIMED = {
              "detuning limits) or concrete variants (clock, bandwidth, EOM configuration, ids/order/reusability); strict=True must raise or return "
              "the identical timeline for all parameter values, strict=False must satisfy every limit of B.", ref="§6 C18",
              note="Trusted base: z3, symx, stubs in the evidence file. Finding F5 (custom_phase_jump_time / min_duration not compared) is reported as KNOWN-FINDING."),
- "C04": dict(text="Bounded symbolic model checking of sequence serialisation: 10 built programs and 4 parametrized templates covering every "
+ "C04": dict(text="Bounded symbolic model checking of sequence serialisation: 17 built programs and 10 parametrized templates covering every "
              "operation kind and optional argument at default and non-default value (waveform kinds, protocols, EOM incl. drift correction, DMM, SLM, "
              "XY + magnetic field, layout register, measurement, variables/items/arithmetic) with symbolic numeric arguments; real serializer -> "
              "real jsonschema validation -> real deserializer; device/register/channels/timeline/pulses/phase references/measurement compared "
              "for all values; templates compared after build() for symbolic variable values; same for the legacy PulserEncoder/Decoder.", ref="§6 C04",
              note="Trusted base: z3, symx, token JSON facade (schema numeric ranges checked for a witness value only), stubs in the evidence file."),
- "C08": dict(text="Bounded symbolic model checking of build(): 6 templates (variables, items, + - * / // % ** abs sin, EOM and DMM arguments, "
+ "C08": dict(text="Bounded symbolic model checking of build(): 16 templates (variables, items, + - * / // % ** abs sin, EOM and DMM arguments, "
              "index targeting) are built three times (values v, v', v again) with symbolic variable values and compared with direct construction; "
              "template unchanged; mappable registers resolve to the requested traps in declared order (concrete enumeration).", ref="§6 C08",
              note="Trusted base: z3, symx, stubs in the evidence file; np.sin etc. of variables are uninterpreted functions; mappable-register cases are concrete."),
